@@ -17,7 +17,7 @@ META = dict(
     bounds=dict(
         quick="all 13 dump_one and 4 dump_many formats; every non-empty subset of the declared required attributes set to "
               "None; every prepare_dump rejection reason (generalized orbitals, occs_aminusb, generalized contractions, "
-              "pure functions for WFN/WFX, non-aufbau occupations for FCHK incl. symbolic occupations, missing / "
+              "pure functions for WFN/WFX (also as one contraction of a generalized shell), non-aufbau occupations for FCHK incl. symbolic occupations, missing / "
               "unsupported schema_name for QCSchema) x allow_changes; target absent / pre-existing; dump_many with the faulty "
               "frame at index 0, 1, 2 and list / generator iterables, empty sequence; a generator raising one of five "
               "exception types (incl. IOData's own LoadError / FileFormatError / WriteInputError) before frame 0, 1, 2; a fault injected at the k-th write "
@@ -60,6 +60,9 @@ def rich_object(ctx, fmt, reason=None):
         shells = [(0, [0, 1, 1], ["c", "c", "c"], 2), (1, [0], ["c"], 1)]
     elif reason == "pure-functions":
         shells = [(0, [0], ["c"], 2), (1, [2], ["p"], 1)]
+    elif reason == "pure-in-generalized":
+        # a pure d contraction that shares its primitives with an s contraction: pure functions all the same
+        shells = [(0, [0, 2], ["c", "p"], 2), (1, [0], ["c"], 1)]
     elif reason == "non-aufbau":
         occ = "fractional"
     kw = wfobj.make_wf(ctx, [(8, None), (1, None)], shells, conv="horton2", mo_kind=mo_kind, norb=norb, occ=occ, sym=False,
@@ -167,8 +170,8 @@ REASONS = {
     "fchk": ["generalized-orbitals", "generalized-contraction", "ps-ordered-contraction", "three-contractions", "non-aufbau"],
     "molden": ["generalized-orbitals", "occs_aminusb", "occs_aminusb-zero", "occs_aminusb-singlet", "generalized-contraction", "ps-ordered-contraction", "three-contractions"],
     "molekel": ["generalized-orbitals", "occs_aminusb", "occs_aminusb-zero", "occs_aminusb-singlet", "generalized-contraction", "ps-ordered-contraction", "three-contractions"],
-    "wfn": ["generalized-orbitals", "occs_aminusb", "occs_aminusb-zero", "occs_aminusb-singlet", "generalized-contraction", "ps-ordered-contraction", "pure-functions"],
-    "wfx": ["generalized-orbitals", "occs_aminusb", "occs_aminusb-zero", "occs_aminusb-singlet", "generalized-contraction", "ps-ordered-contraction", "pure-functions"],
+    "wfn": ["generalized-orbitals", "occs_aminusb", "occs_aminusb-zero", "occs_aminusb-singlet", "generalized-contraction", "ps-ordered-contraction", "pure-functions", "pure-in-generalized"],
+    "wfx": ["generalized-orbitals", "occs_aminusb", "occs_aminusb-zero", "occs_aminusb-singlet", "generalized-contraction", "ps-ordered-contraction", "pure-functions", "pure-in-generalized"],
     "json_qcschema": ["missing-schema-name", "unsupported-schema"],
 }
 CONVERTIBLE = {"occs_aminusb", "occs_aminusb-zero", "occs_aminusb-singlet", "generalized-contraction", "ps-ordered-contraction", "three-contractions"}
